@@ -67,7 +67,7 @@ class Endpoint(object):
             with self.node:
                 gen = genfunc()
         except BaseException as e:      # raised before becoming a generator
-            if isinstance(e, (KeyboardInterrupt, SystemExit)):
+            if not isinstance(e, Exception):
                 raise
             out.kind = "exc"
             out.exc = e
@@ -113,6 +113,8 @@ class Endpoint(object):
         except (KeyboardInterrupt, SystemExit, kernel_abort):
             raise
         except BaseException as e:
+            if not isinstance(e, Exception):
+                raise       # the driver's wall-clock timeout, not an outcome
             out.kind = "exc"
             out.exc = e
             self._finish()
